@@ -235,6 +235,19 @@ func c04Verify(raw, key []byte) (outcome, vkey, detail string) {
 	if p := catch(func() { err2 = stun.MessageIntegrity(key).Check(m) }); p != "" || (err2 == nil) != (err == nil) {
 		return "", "check-not-idempotent", fmt.Sprintf("MessageIntegrity.Check = %v, the same call again on the same Message = %v %s: %x", err, err2, p, clip(raw))
 	}
+	// taking a copy of the message for the wire (MarshalBinary, GobEncode) gives the bytes it has and leaves them alone:
+	// a received message need not be in the library's canonical encoding (padding bytes, the legacy 0x8020 type), and
+	// the MAC covers the bytes as they are
+	var mb, gb []byte
+	if p := catch(func() { mb, _ = m.MarshalBinary(); gb, _ = m.GobEncode() }); p != "" {
+		return "", "check-panic", fmt.Sprintf("MarshalBinary / GobEncode %s on %x", p, clip(raw))
+	}
+	if !bytes.Equal(mb, raw) || !bytes.Equal(gb, raw) || !bytes.Equal(m.Raw, raw) {
+		return "", "marshal-changes-message", fmt.Sprintf("after decoding %x: MarshalBinary = %x, GobEncode = %x, m.Raw afterwards = %x", clip(raw), clip(mb), clip(gb), clip(m.Raw))
+	}
+	if p := catch(func() { err2 = stun.MessageIntegrity(key).Check(m) }); p != "" || (err2 == nil) != (err == nil) {
+		return "", "check-not-idempotent", fmt.Sprintf("MessageIntegrity.Check = %v, after MarshalBinary and GobEncode of the same Message = %v %s: %x", err, err2, p, clip(raw))
+	}
 	// the same check from inside a ForEach callback (ForEach hands the callback a window of the attribute list)
 	var ferr error
 	visited := false
